@@ -22,6 +22,7 @@ type Decision struct {
 type Shared struct {
 	prog      *ssa.Program
 	fnInfos   sync.Map
+	harnessFns sync.Map
 	redirects map[string]*ssa.Function
 	errType   types.Type
 	harness   *ssa.Function
@@ -305,6 +306,7 @@ func (c *Ctx) concretize(t *Term, what string) uint64 {
 		if c.solver == nil {
 			panic("symbolic concretize in concrete mode")
 		}
+		c.solver.Predefine(t)
 		r := c.solver.Check(nil, false)
 		if r != Sat {
 			c.solver.EndCheck()
